@@ -362,3 +362,130 @@ Definition exP0 : mparams := mkMP (repeat Byte.x07 32) [1; 2] None None.
 Definition exA0 : alloc := mkAlloc [0] [5] [[60; 40]%Z] [].
 Definition exS00 : state := mkState (repeat Byte.x07 32) 0 exA0 None [] false.
 Definition exOps0 : list op := [OInit exA0 []; OSig; OAddSig 1 (SigOf 2 (enc_state exS00))].
+
+(* ---------- no operation in the documented domain panics on a reachable machine ---------- *)
+Record Inv2 (m : mach) : Prop := mkInv2 {
+  i2_me : (N.to_nat (me m) < n_of m)%nat;
+  i2_cur : phase_num Funding <= phase_num (ph m) -> current m <> None }.
+
+(* the documented domain: signature indices below the participant count; the unchecked forced update
+   and CheckUpdate only on machines that already have a current state; apps that do not panic by design *)
+Definition op_ok (m : mach) (o : op) : Prop :=
+  match o with
+  | OForceUpdate _ _ => current m <> None
+  | OCheckUpdate s a _ i =>
+      current m <> None /\ (N.to_nat i < n_of m)%nat
+      /\ forall c, current m = Some c -> app_valid_transition m (tx_st c) s a <> PANIC
+  | OAddSig i _ => (N.to_nat i < n_of m)%nat
+  | OInit _ d => app_valid_init m d <> PANIC
+  | OUpdate s a => forall c, current m = Some c -> app_valid_transition m (tx_st c) s a <> PANIC
+  | _ => True
+  end.
+
+Lemma nth_error_some_lt {A} (l : list A) i : (i < length l)%nat -> exists x, nth_error l i = Some x.
+Proof.
+  intro H. destruct (nth_error l i) eqn:E; [eauto|]. apply nth_error_None in E. lia.
+Qed.
+
+Lemma vt_no_panic m s a : current m <> None ->
+  (forall c, current m = Some c -> app_valid_transition m (tx_st c) s a <> PANIC) ->
+  valid_transition m s a <> PANIC.
+Proof.
+  intros Hc Ha. unfold valid_transition. destruct (nparts m <=? a); [discriminate|].
+  destruct (current m) as [c|]; [|elim Hc; reflexivity].
+  destruct (generic_valid m (tx_st c) s); [apply Ha; reflexivity|discriminate].
+Qed.
+
+Lemma enable_no_panic m f t : Inv m -> signing_phase f = true -> snd (enable_staged m f t) <> PANIC.
+Proof.
+  intros I Sf. unfold enable_staged. destruct (negb (expect m f t)) eqn:E; [discriminate|].
+  apply negb_false_iff in E. apply expect_phase in E.
+  destruct (staging m) as [stx|] eqn:Es.
+  - break_match; discriminate.
+  - exfalso. apply (inv_signing m I); [rewrite E; exact Sf|exact Es].
+Qed.
+
+Lemma step_no_panic m o : Inv m -> Inv2 m -> op_ok m o -> snd (step m o) <> PANIC.
+Proof.
+  intros I [Hme Hcur] Hop. destruct o; cbn [step op_ok] in *.
+  - destruct (negb (expect m InitActing InitSigning)); [discriminate|].
+    destruct (new_state m a d); [|discriminate].
+    destruct (app_valid_init m d) eqn:E; cbn [snd]; try discriminate. elim Hop. reflexivity.
+  - destruct (negb (expect m Acting Signing)) eqn:E; [discriminate|].
+    apply negb_false_iff in E. apply expect_phase in E.
+    assert (Hc : current m <> None) by (apply Hcur; rewrite E; cbn; lia).
+    pose proof (vt_no_panic m s actor Hc Hop) as NP.
+    destruct (valid_transition m s actor); cbn [snd]; try discriminate. exact NP.
+  - discriminate.
+  - destruct Hop as (Hc & Hi & Ha). pose proof (vt_no_panic m s actor Hc Ha) as NP.
+    destruct (valid_transition m s actor); cbn [snd]; try discriminate; try exact NP.
+    destruct (nth_error_some_lt (mp_parts (ps m)) (N.to_nat i) Hi) as [a Ea]. rewrite Ea.
+    destruct (verify_state a s sg) as [[|]|]; discriminate.
+  - destruct (negb (signing_phase (ph m))) eqn:E; [discriminate|]. apply negb_false_iff in E.
+    destruct (staging m) as [stx|] eqn:Es; [|exfalso; apply (inv_signing m I E Es)].
+    destruct (inv_staging m I stx Es) as [L _].
+    destruct (nth_error_some_lt (tx_sigs stx) (N.to_nat (me m))) as [g Eg]; [rewrite L; exact Hme|].
+    rewrite Eg. destruct g; [discriminate|].
+    destruct (nth_error_some_lt (mp_parts (ps m)) (N.to_nat (me m)) Hme) as [k Ek]. rewrite Ek.
+    destruct (sign_state k (tx_st stx)); discriminate.
+  - destruct (negb (signing_phase (ph m))) eqn:E; [discriminate|]. apply negb_false_iff in E.
+    destruct (staging m) as [stx|] eqn:Es; [|exfalso; apply (inv_signing m I E Es)].
+    destruct (inv_staging m I stx Es) as [L _].
+    destruct (nth_error_some_lt (tx_sigs stx) (N.to_nat i)) as [g Eg]; [rewrite L; exact Hop|].
+    rewrite Eg. destruct g; [discriminate|].
+    destruct (nth_error_some_lt (mp_parts (ps m)) (N.to_nat i) Hop) as [a Ea]. rewrite Ea.
+    destruct (verify_state a (tx_st stx) sg) as [[|]|]; discriminate.
+  - apply enable_no_panic; [exact I|reflexivity].
+  - apply enable_no_panic; [exact I|reflexivity].
+  - apply enable_no_panic; [exact I|reflexivity].
+  - break_match; discriminate.
+  - unfold simple_transition. break_match; discriminate.
+  - break_match; discriminate.
+  - break_match; discriminate.
+  - break_match; discriminate.
+  - discriminate.
+  - break_match; discriminate.
+  - unfold simple_transition. break_match; discriminate.
+Qed.
+
+Lemma Inv2_step m o : Inv2 m -> op_ok m o -> Inv2 (fst (step m o)).
+Proof.
+  intros [Hme Hcur] Hop.
+  assert (K : forall p stg, (phase_num Funding <= phase_num p -> phase_num Funding <= phase_num (ph m)) ->
+              Inv2 (mkMach p (me m) (ps m) stg (current m))).
+  { intros p stg Hp. split; cbn [me ps ph current n_of]; [exact Hme|]. intro H. apply Hcur. apply Hp. exact H. }
+  assert (K2 : forall p stg t, Inv2 (mkMach p (me m) (ps m) stg (Some t))).
+  { intros p stg t. split; cbn [me ps ph current n_of]; [exact Hme|]. intros _. discriminate. }
+  destruct o; cbn [step op_ok] in *; unfold enable_staged, simple_transition, set_phase, set_staging, add_tx;
+    break_match; cbn [fst]; try (split; assumption); try apply K2.
+  all: try (apply K; cbn; lia).
+  all: repeat match goal with
+              | H : negb (expect _ _ _) = false |- _ => apply negb_false_iff in H; apply expect_phase in H
+              | H : expect _ _ _ = true |- _ => apply expect_phase in H
+              end.
+  all: try (apply K; intros _;
+            match goal with H : ph _ = _ |- _ => rewrite H; cbn; lia end).
+  all: try (split; cbn [me ps ph current n_of]; [exact Hme|]; intros _; first [exact Hop | apply Hcur]).
+  all: try match goal with H : (phase_num (ph _) <? phase_num Funding) = false |- _ => apply N.ltb_ge in H; exact H end.
+  all: try (match goal with H : phase_in (ph ?mm) _ = true |- _ => destruct (ph mm); try (vm_compute in H; discriminate H); cbn; lia end).
+Qed.
+
+(* runs in which every operation is in the documented domain at the moment it is applied *)
+Fixpoint run_ok (m : mach) (ops : list op) : Prop :=
+  match ops with
+  | [] => True
+  | o :: r => op_ok m o /\ run_ok (fst (step m o)) r
+  end.
+
+Lemma Inv2_new p idx : (N.to_nat idx < length (mp_parts p))%nat -> Inv2 (new_machine p idx).
+Proof.
+  intro H. split; cbn [new_machine me ps ph current n_of]; [exact H|]. cbn. intro C. lia.
+Qed.
+
+Lemma no_panic_reachable m ops o : Inv m -> Inv2 m -> run_ok m (ops ++ [o]) ->
+  snd (step (run m ops) o) <> PANIC.
+Proof.
+  revert m; induction ops as [|x ops IH]; intros m I I2 R; cbn [run fold_left app run_ok] in *.
+  - destruct R as [Ho _]. apply step_no_panic; assumption.
+  - destruct R as [Hx R]. apply IH; [apply Inv_step; exact I|apply Inv2_step; assumption|exact R].
+Qed.
